@@ -2,27 +2,61 @@
    sweep and RPM measurement, restart, after `fan init` / `fan reset`, configured maps, hwmon / file / cmd
    fans, concurrent starts, CLI-driven histories) is followed by a few real control cycles; nothing but the
    controller touches the fan's files and all writes succeed, so the controller's third-party counter
-   (FanControllerStatistics.UnexpectedPwmValueCount) must still be 0.
+   (FanControllerStatistics.UnexpectedPwmValueCount) must still be 0 -- provided C05's standing assumption
+   holds for the start: the device reads back what the controller's PWM map says ([reads_back]: every output
+   of the map is a value the device shows when it is written; the start-up driver also generates configured /
+   stored maps that contradict the device, those starts are not judged).
    Same case type as Drv/Startup.v (field o_c05); no model comparison here: the start-up actions are
    compared by C15, the regulation cycles by the ctrl driver of C05. *)
 From F2G Require Export Drv.Startup.
 From Coq Require Import Lia.
 
-Definition step_c05b (x : bool * Z * Z) : bool :=
-  let '(disturbed, cycles, count) := x in disturbed || (count =? 0).
+(* the device shows every output of the map when it is written *)
+Definition reads_back (cp : caps) (m : pmap) : bool := forallb (fun kv => dev cp (snd kv) =? snd kv) m.
 
-Definition holdsb (c : case) : bool := forallb step_c05b (o_c05 c).
+Fixpoint zip3 {A B C} (a : list A) (b : list B) (c : list C) : list (A * B * C) :=
+  match a, b, c with
+  | x :: a', y :: b', z :: c' => (x, y, z) :: zip3 a' b' c'
+  | _, _, _ => []
+  end.
 
-(* no false count: every undisturbed start shows a zero counter after its control cycles *)
+(* is this step a start that C05 speaks about: undisturbed, and the device reads back the controller's map *)
+Definition judged (fl : fleet) (s : cmd * ostep * (bool * Z * Z)) : bool :=
+  let '(c, o, (disturbed, _, _)) := s in
+  match c with
+  | Start id =>
+      match fl id, os_final o with
+      | Some (_, cp), Some m => negb disturbed && reads_back cp m
+      | _, _ => false
+      end
+  | _ => false
+  end.
+
+Definition count_of (s : cmd * ostep * (bool * Z * Z)) : Z := let '(_, _, (_, _, n)) := s in n.
+
+Definition step_c05b (fl : fleet) (s : cmd * ostep * (bool * Z * Z)) : bool :=
+  implb (judged fl s) (count_of s =? 0).
+
+Definition holdsb (c : case) : bool :=
+  forallb (step_c05b (fleet_of (c_fans c))) (zip3 (c_cmds c) (o_steps c) (o_c05 c)).
+
+(* no false count: every judged start shows a zero counter after its control cycles *)
 Definition Holds (c : case) : Prop :=
-  forall disturbed cycles count, In (disturbed, cycles, count) (o_c05 c) -> disturbed = false -> count = 0.
+  forall s, In s (zip3 (c_cmds c) (o_steps c) (o_c05 c)) -> judged (fleet_of (c_fans c)) s = true -> count_of s = 0.
 
 Theorem holdsb_spec c : holdsb c = true <-> Holds c.
 Proof.
-  unfold holdsb, Holds. rewrite forallb_forall. split.
-  - intros H d cy n Hin Hd. specialize (H _ Hin). cbn in H. subst d. cbn in H. now apply Z.eqb_eq.
-  - intros H [[d cy] n] Hin. cbn. destruct d; [reflexivity|]. cbn. apply Z.eqb_eq. eapply H; eauto.
+  unfold holdsb, Holds, step_c05b. rewrite forallb_forall. split.
+  - intros H s Hin J. specialize (H s Hin). rewrite J in H. cbn in H. now apply Z.eqb_eq.
+  - intros H s Hin. destruct (judged (fleet_of (c_fans c)) s) eqn:J; [|reflexivity].
+    cbn. apply Z.eqb_eq. now apply H.
 Qed.
+
+(* the judged class is not empty: a start whose configured map matches an identity device is judged *)
+Example judged_nonempty :
+  judged (fun _ => Some (mkFanCfg HwMon None None None true, mkCaps true true []))
+         (Start 1, mkOStep [Regulate] true true (Some [(0, 0); (255, 255)]), (false, 3, 0)) = true.
+Proof. reflexivity. Qed.
 
 Definition mismatch (c : case) : bool := false.
 Definition finding_code (c : case) : Z := 0.
